@@ -55,7 +55,8 @@ class Prop(Check):
     ]
     DRIVER = "Drivers/Positions.lean"
     QUICK_CASES = 480
-    THOROUGH_CASES = 20000
+    THOROUGH_CASES = 40000
+    PROCS_THOROUGH = 4  # builders share the machine; raise together with THOROUGH_CASES on a free one
     RULE = ("projects of 1..4 model files (main + imports, strings for single files), plain-name and qualified-name "
             "providers, random layout (blank lines, comments, tabs, non-ASCII), random postponement schedules, one "
             "injected error of each kind (syntax: insert / replace / drop a token; unknown object; reference postponed "
